@@ -335,6 +335,10 @@ def install_peewee():
     C.stub(PW, "json", JSON)
     C.stub(PW, "float", sym_float)
     C.stub(PW, "get_data_dir", lambda name=None: "/stub/data")
+    import iso8601
+    from symex import sstr
+
+    C.stub(iso8601, "parse_date", sstr.sym_parse_date(iso8601.parse_date, iso8601.ParseError))
 
 
 def _seconds_to_us(v):
